@@ -361,6 +361,40 @@ func misuse(db *originium.DB, name string, fail func(string, string, ...any)) bo
 			return false
 		}
 		tx.Discard()
+		// the same with an EMPTY write buffer: an update transaction that only read, one whose only write was
+		// refused, and a read-only transaction - Commit on the finished handle is misuse all the same
+		for _, kind := range []string{"update-read-only-use", "update-refused-write", "read-only"} {
+			t2 := db.Begin(kind != "read-only")
+			switch kind {
+			case "update-read-only-use":
+				t2.Get("k")
+			case "update-refused-write":
+				t2.Set("", []byte("x"))
+			}
+			t2.Discard()
+			if err := t2.Commit(); err != originium.ErrDiscardedTxn {
+				fail("misuse/commit-after-discard", "Commit on a discarded transaction without buffered writes (%s) returned %v", kind, err)
+				return false
+			}
+			t3 := db.Begin(kind != "read-only")
+			if kind == "update-read-only-use" {
+				t3.Get("k")
+			}
+			if err := t3.Commit(); err != nil {
+				fail("misuse/setup", "Commit of a transaction without writes (%s) returned %v", kind, err)
+				return false
+			}
+			if err := t3.Commit(); err != originium.ErrDiscardedTxn {
+				fail("misuse/commit-after-commit", "second Commit on a transaction without buffered writes (%s) returned %v", kind, err)
+				return false
+			}
+		}
+		// Update whose closure finishes its own write-less transaction and returns nil: Update's Commit is a use of
+		// a finished transaction
+		if err := db.Update(func(t *originium.Txn) error { t.Discard(); return nil }); err != originium.ErrDiscardedTxn {
+			fail("misuse/commit-after-discard", "Update whose closure discarded its (write-less) transaction returned %v", err)
+			return false
+		}
 	case "use-after-successful-commit":
 		// a transaction that committed successfully is finished as well: nothing written through the stale
 		// handle may ever become visible (the model is not updated for these calls)
